@@ -58,6 +58,10 @@ type ReplayFile struct {
 	Minimised    bool            `json:"minimised"`
 	ShrinkSteps  int             `json:"shrink_steps,omitempty"`
 	Note         string          `json:"note,omitempty"`
+	// Seeded: draw the schedule/fault stream from RunSeed instead of Choices
+	// (used when a batch hands a run to a fresh process).
+	Seeded bool       `json:"seeded,omitempty"`
+	Report *RunReport `json:"report,omitempty"`
 }
 
 func (r *ReplayFile) Write(path string) error {
